@@ -212,6 +212,14 @@ def main(argv):
         c, m = sample_cases(rng, fails, formula, mass, envp, exposure, lists, sorted(facs))
         cases += c
         meta += m
+    # weakly activated samples with several comparable products and very small targets: there the absolute
+    # tolerance of the root finder is coarse and only the 0.1% guard stands between a wrong time and the caller
+    for formula in rng.sample(["Ti", "Al2O3", "Cu", "NaCl", "Ag", "AuCu3", "CaCO3", "Ni", "Zn", "Mo"], 4 if n <= 12 else 10):
+        envp = (10 ** rng.uniform(4, 6), rng.choice([0.0, 70.0]), rng.choice([0.0, 50.0]))
+        c, m = sample_cases(rng, fails, formula, 10 ** rng.uniform(-1, 1), envp, 10 ** rng.uniform(0, 2), [[0, 1, 24, 360]],
+                            [1e-9, 3e-9, 1e-8, 1e-7, 3e-7, 1e-6, 1e-5])
+        cases += c
+        meta += m
     json.dump(dict(cases=cases, meta=meta, direct_fails=fails), sys.stdout)
 
 
